@@ -264,9 +264,15 @@ class TaskFuture(Future):
         return Future.exception(self, 0)
 
 
-def pool_class(sched):
+def pool_class(sched, flavour="thread"):
     """A ThreadPoolExecutor look-alike whose tasks are threads of ``sched``:
-    FIFO work queue, at most max_workers tasks started and not finished."""
+    FIFO work queue, at most max_workers tasks started and not finished.
+    Flavour "process": the work item and the result travel through pickle, so
+    every task works on private copies of its arguments (what a process pool
+    gives it) and the tasks share nothing but the file system; interleaving
+    them at line granularity over-approximates the operating system's
+    scheduling of the worker processes."""
+    import pickle
 
     class InterleavedThreadPool(Executor):
         def __init__(self, max_workers=None, **kw):
@@ -295,7 +301,20 @@ def pool_class(sched):
                 raise RuntimeError("cannot schedule new futures after "
                                    "shutdown")
             fut = TaskFuture(sched)
-            t = sched.spawn(lambda: fn(*args, **kwargs), fut, None)
+            if flavour == "process":
+                try:
+                    blob = pickle.dumps((fn, args, kwargs))
+                except Exception as exc:
+                    fut.set_exception(exc)
+                    return fut
+
+                def body():
+                    f, a, k = pickle.loads(blob)
+                    return pickle.loads(pickle.dumps(f(*a, **k)))
+            else:
+                def body():
+                    return fn(*args, **kwargs)
+            t = sched.spawn(body, fut, None)
             t.can_start = lambda t=t: self._startable(t)
             self.tasks.append(t)
             sched.point("submit")
